@@ -17,7 +17,7 @@ BLOCK_TOP_KINDS = ['main_swapped_def', 'main_elif_def', 'nfkc_decodef', 'contlin
                    'finally_def', 'for_def', 'with_def', 'while_def', 'cmdef', 'lrudef', 'if_class', 'subclass']
 BLOCK_MEMBER_KINDS = ['cmmethod', 'cachedprop', 'if_method', 'prop_deco', 'private_method']
 LAYOUTS = ['freeform1', 'none', 'freeform2', 'google1', 'google2', 'doctestblock', 'google_after_args', 'mixed',
-           'google_space', 'google_kinds', 'free_after_word', 'google_blank2', 'google_bad_later', 'google_bad_first']
+           'google_space', 'google_kinds', 'free_after_word', 'google_blank2', 'google_bad_later', 'google_bad_first', 'free_after_ignored', 'free_ignored_between']
 STYLES = ['auto', 'google', 'freeform']
 TOKEN_RE = re.compile(r'tok_\d+')
 
@@ -103,6 +103,13 @@ def doc_body(layout, tok):
     if layout == 'google_bad_first':
         t1 = tok()
         return (['Summary line.', '', 'Example:', '    >>> x = (', '    >>> y = 1', '', 'Example:'] + ['    ' + l for l in ex(t1)]), [('bad', []), ('google', [t1])]
+    if layout == 'free_after_ignored':
+        # a block under a do-not-run header, prose, then the runnable doctest (no google block: auto falls back on freeform)
+        t = tok()
+        return (['Summary line.', '', 'Script:', '    >>> ig = 1/0', '    >>> ig2 = 2', '', 'Now the real thing.', ''] + ex(t)), [('free', [t])]
+    if layout == 'free_ignored_between':
+        t1, t2 = tok(), tok()
+        return (['Summary line.', ''] + ex(t1) + ['', 'Ignore:', '    >>> ig = 1/0', '', 'Back to the tests.', ''] + ex(t2)), [('free', [t1]), ('free', [t2])]
     if layout == 'mixed':
         t1, t2 = tok(), tok()
         return (['Summary line.', ''] + ex(t1) + ['', 'Example:'] + ['    ' + l for l in ex(t2)]), [('free', [t1]), ('google', [t2])]
